@@ -1,11 +1,11 @@
-// F6 (C13): the IV of the authenticated+encrypted stream mode is not covered by the MAC.
-// Flipping ONE bit of the first 16 wire bytes (the plain IV) makes the receiver silently lose the first message
-// (its tag verifies, the sequence number advances, CFB decryption with the wrong IV garbles the first block and
-// mpz_set_str fails), while the second and third message are still delivered: a message is removed from an
-// authenticated non-chunked stream without the link being stopped.  Same in aiounicast_nonblock.
+// Observation (C13, NOT judged as a violation — lead's decision): the IV of the authenticated+encrypted stream mode is
+// not covered by the MAC.  Flipping ONE bit of the first 16 wire bytes (the plain IV) makes the receiver silently lose
+// the first message (its tag verifies, the sequence number advances, CFB decryption with the wrong IV garbles the first
+// block and mpz_set_str fails), while the second and third message are still delivered.  No modified bytes are handed
+// out as a message, so C13 as stated holds; the behaviour is recorded only.  Same in aiounicast_nonblock.
 //
-// build: g++ -DHAVE_CONFIG_H -I/repo -I/repo/src findings/F6_aiounicast_iv_unauthenticated.cc build/plain/libtmcg.a -lgcrypt -lgmp -lgpg-error -o /tmp/f6
-// run:   /tmp/f6 [bit-offset-in-IV 0..127]     expected output: "delivered: 22 33" (correct would be "11 22 33" or nothing)
+// build: g++ -DHAVE_CONFIG_H -I/repo -I/repo/src findings/obs_aiounicast_iv_unauthenticated.cc build/plain/libtmcg.a -lgcrypt -lgmp -lgpg-error -o /tmp/obs_iv
+// run:   /tmp/obs_iv [bit-offset-in-IV 0..127]     prints "delivered: 22 33"
 #include <libTMCG.hh>
 #include <aiounicast_select.hh>
 #include <unistd.h>
